@@ -16,7 +16,9 @@ const ONE: &[&str] = &["a", "b", "c", " "];
 const TWO: &[&str] = &["ä", "ß", "é"];
 const THREE: &[&str] = &["中", "€", "\u{200b}"];
 const FOUR: &[&str] = &["😀", "𝄞"];
-/// multi-code-point clusters in grapheme mode: 3, 3, 8, 11, 2, 9, 8, 6 bytes
+/// multi-code-point clusters in grapheme mode: 3, 3, 8, 11, 2, 9, 8, 6 bytes; then (checked against the
+/// model's own segmenter by `uax29_agree`) Prepend + letter (3), Hangul L V T (9), three Regional_Indicators
+/// (8 + 4: two clusters), consonant + virama + ZWJ + consonant (12), consonant + ZWJ + consonant (6 + 3)
 const CLUSTER: &[&str] = &[
     "e\u{301}",
     "a\u{308}",
@@ -26,6 +28,11 @@ const CLUSTER: &[&str] = &[
     "क\u{94d}ष",
     "👍🏽",
     "\u{1100}\u{1161}",
+    "\u{600}b",
+    "\u{1100}\u{1161}\u{11a8}",
+    "🇩🇪🇫",
+    "क\u{94d}\u{200d}ष",
+    "क\u{200d}ष",
 ];
 
 fn big(v: &Val) -> Option<usize> {
